@@ -380,6 +380,8 @@ func (n *Net) Mode(by int, ch string, changes []ModeChange) []string {
 			args = append(args, n.Users[m.User].Nick)
 		case 'b', 'e', 'I':
 			args = append(args, m.Arg)
+		case 'c', 'C', 'R', 'M', 'S', 'T', 'u', 'N', 'g', 'j', 'f', 'L', 'J':
+			// ircd-specific modes outside the modelled state (never generated in a form that carries an argument)
 		default:
 			c.Flags[m.Letter] = m.On
 		}
